@@ -89,6 +89,7 @@ class Harness:
             dbapi_conn.autocommit = ac
 
         self.events = []
+        self.batch = 0
         self.recording = False
 
         @event.listens_for(self.engine, "before_cursor_execute")
@@ -98,7 +99,8 @@ class Harness:
             m = _DML.match(statement)
             if not m or context is None or context.compiled is None:
                 return
-            self.events += normalise(m.group(1).split()[0].upper(), context.compiled, parameters if executemany else [parameters])
+            self.batch += 1
+            self.events += normalise(m.group(1).split()[0].upper(), context.compiled, parameters if executemany else [parameters], self.batch)
 
         self.m["Base"].metadata.create_all(self.engine)
         with self.engine.connect() as c:
@@ -136,7 +138,7 @@ class Harness:
         raw.close()
 
 
-def normalise(op, compiled, plist):
+def normalise(op, compiled, plist, batch=0):
     table = compiled.statement.table
     pkcols = [c.name for c in table.primary_key.columns]
     fkcols = sorted(c.name for c in table.columns if c.foreign_keys)
@@ -156,7 +158,7 @@ def normalise(op, compiled, plist):
             cols = [{"col": c, "val": "null" if d[c] is None else str(d[c])} for c in fkcols if c in d]
         else:
             cols = []
-        out.append({"op": op, "t": table.name, "pk": pk, "cols": cols})
+        out.append({"op": op, "t": table.name, "pk": pk, "cols": cols, "batch": batch})
     return out
 
 
@@ -321,6 +323,7 @@ def _m2m_case(h, rng):
     for r in Rs.values():
         r.ls
     dead = set()
+    linked = set()      # objects that received a NEW link in this batch: deleting them too would leave the intended final state ambiguous
     for _ in range(rng.randint(2, 5)):
         ll = [x for x in Ls.values() if ("l", x.id) not in dead]
         rr = [x for x in Rs.values() if ("r", x.id) not in dead]
@@ -329,6 +332,7 @@ def _m2m_case(h, rng):
             l, r = rng.choice(ll), rng.choice(rr)
             if r not in l.rs:
                 l.rs.append(r)
+                linked |= {id(l), id(r)}
         elif op == "unlink" and ll:
             l = rng.choice(ll)
             if l.rs:
@@ -337,9 +341,11 @@ def _m2m_case(h, rng):
             Ls[3] = L(id=3, rs=[])
             s.add(Ls[3])
             if rr:
-                Ls[3].rs.append(rng.choice(rr))
+                r = rng.choice(rr)
+                Ls[3].rs.append(r)
+                linked |= {id(Ls[3]), id(r)}
         elif op == "delete":
-            cand = [x for x in ll + rr if x not in s.new]
+            cand = [x for x in ll + rr if x not in s.new and id(x) not in linked]
             if cand:
                 x = rng.choice(cand)
                 dead.add(("l" if isinstance(x, L) else "r", x.id))
